@@ -72,6 +72,7 @@ class Sim(object):
         self.sched_keys = set()
         self.point_lines = set()
         self.alias_names = {}
+        self.stack = []           # engine N: contexts of the calls currently pre-empted, outermost first
         self.recipes = {}         # id(obj) -> [(entry name, cloned call)] for objects without a repr
         self.op_recipe = {}       # op id -> recipe of its receiver at call time
         self.func_log = None      # calibration only: pymeeus functions entered by the current op
@@ -120,6 +121,10 @@ class Sim(object):
         cps = ctx.op.get('cpoints') or []
         S[3] = cps[ctx.cidx]['call'] if ctx.cidx < len(cps) else NOCALL
 
+    def inflight_tasks(self):
+        """Tasks that have a call in flight on the nested-pre-emption stack (engine N)."""
+        return [c.op['task'] for c in self.stack]
+
     def on_point(self, frame, S, task):
         ctx = self.cur if task is None else self.tcur[task]
         cps = ctx.op.get('cpoints') or []
@@ -166,9 +171,11 @@ class Sim(object):
                 self.events.append(('nest', ctx.op['id'], tag, b['id'], where))
                 self.sched_keys.add((ctx.op['name'], where[0], where[1], b['name']))
                 saved = (S[0], S[1], S[2], S[3], self.cur)
+                self.stack.append(ctx)
                 try:
-                    self.run_op(b, 1)
+                    self.run_op(b, len(self.stack))
                 finally:
+                    self.stack.pop()
                     S[0], S[1], S[2], S[3], self.cur = saved
                     sys.settrace(self.tracer)
                 self.pool_check(ctx.op, 'post-nest')
